@@ -31,8 +31,8 @@ func init() {
 }
 
 type c11Op struct {
-	K    string `json:"k"`           // put, putraw, del, ttl, cstep, call, tab, tba, drainab, drainba
-	Key  int    `json:"key"`         // key index
+	K    string `json:"k"`              // put, putraw, del, ttl, cstep, call, tab, tba, drainab, drainba
+	Key  int    `json:"key"`            // key index
 	Size string `json:"size,omitempty"` // T, M, L, X
 }
 
@@ -76,7 +76,7 @@ type c11World struct {
 
 const c11NumKeys = 4
 
-func c11HKey(i int) uint64 { return 0x9e3779b97f4a7c15*uint64(i+1) ^ 0xabcdef }
+func c11HKey(i int) uint64    { return 0x9e3779b97f4a7c15*uint64(i+1) ^ 0xabcdef }
 func c11KeyName(i int) string { return fmt.Sprintf("k%d", i) }
 
 func newC11Engine(ts uint64, idleNow bool) storage.Engine {
